@@ -591,8 +591,29 @@ def check_property(prop, tier, seed, jobs=4):
                     replayed.append({"obligation": k["obligation"], "result": "FAILS AGAIN", "observed": cex.get("observed")})
                 else:
                     replayed.append({"obligation": k["obligation"], "result": "holds on the real code", "detail": oracle})
+    # Bounded stand-ins (labelled bounded, never counted as proved): the executable oracles of
+    # tools/replay.py are run on the real code for the parts of the property that rest on ASSUMED
+    # contracts of raindb code the verifier does not ingest (MergingIterator, the skip-list memtable,
+    # Version::get's loop, the table cache ...).  A failing input is a violation with a concrete
+    # replay; a pass proves nothing and is reported as "bounded".
+    bounded = []
+    for famname in pc.get("bounded", []):
+        try:
+            import replay as replay_mod
+            br = replay_mod.run_family(famname, REPO, seed)
+        except Exception as e:
+            bounded.append({"family": famname, "result": "unavailable: %s" % str(e)[:300]})
+            continue
+        bounded.append(dict((k, v) for k, v in br.items() if k != "counterexample"))
+        if br["counterexample"]:
+            cex = br["counterexample"]
+            violations.append((None, {"obligation": "BOUNDED::%s" % famname, "function": "bounded stand-in", "label": famname,
+                                      "message": "bounded stand-in: the real code disagrees with the reference model on a concrete input",
+                                      "rendered": cex.get("observed", ""), "props": [prop],
+                                      "kani": {"harness": famname, "counterexample": cex}}))
     wall = time.time() - t0
     pc = dict(pc)
+    pc["_bounded"] = bounded
     pc["_replayed_fixed"] = replayed
     write_evidence(prop, tier, seed, units, results, violations, known_hits, undecided, kani_results, wall, pc)
     for fl, k in known_hits:
@@ -685,7 +706,7 @@ def write_evidence(prop, tier, seed, units, results, violations, known_hits, und
             "undecided": [{"unit": u, "reason": why} for u, why in undecided],
             "undecided_part_of_property": pc.get("undecided", ""),
             "replayed_fixed_findings": pc.get("_replayed_fixed", []),
-            "bounded_standins": [k for k in kani_results if k.get("kind") == "bounded"],
+            "bounded_standins": [k for k in kani_results if k.get("kind") == "bounded"] + pc.get("_bounded", []),
             "dependency_contracts": [k for k in kani_results if k.get("kind") == "complete"],
         },
         "assumptions": pc.get("assumptions", []) + [
